@@ -1,5 +1,11 @@
 """C10 bounded stand-in: connect_circuit (left / right) and its five wrappers on small pairs vs. the documented
-functional composition, evaluated by the spec evaluator on the two OPERAND netlists."""
+functional composition, evaluated by the spec evaluator on the two OPERAND netlists.
+
+Besides the enumerated connector choices there is a corner family (`corner_pool` / `corner_cases`): calls whose connector
+lists are empty but written out (`extend_circuit(other, this_connectors=[], other_connectors=[])` is `add_circuit`, not the
+default full-interface connection), lists given as tuples, `name=''` with `add_prefix=False`, and keyword arguments left
+to their defaults.  Feature tokens: explicit-empty-connectors, one-connector-list-defaulted, tuple-connectors,
+default-kwargs, empty-name-no-prefix, empty-circuit."""
 import itertools
 
 from .. import env
@@ -485,8 +491,15 @@ def run_bounded(rep, quick):
         'repetition and internal gates on the flexible side) x (no name | name with prefix | name without prefix) x (disjoint | shared labels): '
         'inputs and outputs (positions, labels) == documented composition, truth table == composition computed by the spec evaluator on the two '
         'operand netlists, other unchanged, get_block(name).into_circuit() computes other, and the result used further (a second add_circuit; '
-        'the result attached to an empty circuit) still computes the same function; non-trivial = distinct executed (pair, call)',
-        'quick: K<=1, 3+5 bases x 3+4 others + 500 random pairs (<=3 inputs, <=5 gates); thorough: K<=2, 3+30 x 3+30, full connector orders + 20000 random',
+        'the result attached to an empty circuit) still computes the same function; corner family on 9x9 pairs covering every interface width 0..2 '
+        '(incl. a circuit without gates, without inputs, without outputs): connector lists that are EMPTY BUT WRITTEN OUT - extend_circuit(other, '
+        'this_connectors=[], other_connectors=[]) and with only one of the two lists given, connect_circuit(other, [], []), connect_left(other, []), '
+        'connect_right(other, []) - must equal add_circuit (both directions, lists and tuples, no name | name | name without prefix | name="" with '
+        'add_prefix=False | name/add_prefix/right_connect left to their defaults), extend_circuit with defaulted / written-out full interface, '
+        'connect_inputs and add_circuit on the same pairs, and a stride sample of the ordinary connector choices written with tuples / omitted '
+        'keyword arguments / name="" + add_prefix=False; non-trivial = distinct executed (pair, call)',
+        'quick: K<=1, 3+5 bases x 3+4 others + corner family (9x9 pairs, ordinary choices every 7th) + 500 random pairs (<=3 inputs, <=5 gates); '
+        'thorough: K<=2, 3+30 x 3+30, full connector orders + corner family (all ordinary choices) + 20000 random',
         exhaustive=False)
     tasks = []
     if quick:
